@@ -74,6 +74,12 @@ HARNESSES = {
     'three_creates': [('alice', [R((1, 0), lambda: [W.p_create()])]),
                       ('bob', [R((1, 2), lambda: [W.p_create()])]),
                       ('carol', [R((2, 0), lambda: [W.p_create()])])],
+    # requests the engine rejects by raising out of process_request (stale time stamp, asynchronous
+    # indicator, Undo): the lock must be released and nothing of them may stick to the other session
+    'rejected_vs_create': [('alice', [R((1, 2), lambda: [W.p_create()], time_stamp=W.T0 - 5000),
+                                      R((1, 4), lambda: [W.p_create()], async_indicator=True)]),
+                           ('bob', [R((2, 0), lambda: [W.p_create()]),
+                                    R((1, 0), lambda: [W.p_get_attribute_list('2')])])],
     'four_clients': [('alice', [R((1, 0), lambda: [W.p_create()])]),
                      ('bob', [R((1, 4), lambda: [W.p_get_attribute_list('2')])]),
                      ('carol', [R((2, 0), lambda: [W.p_get_attribute_list('1')])]),
@@ -100,7 +106,8 @@ CHUNKED = {
 }
 HARNESSES.update(CHUNKED)
 QUICK = ['create_create', 'batch_placeholder', 'attribute_policy', 'version_gate',
-         'batch_query_vs_query', 'two_each', 'three_creates', 'slugs_team_get', 'chunked_create_create']
+         'batch_query_vs_query', 'two_each', 'three_creates', 'slugs_team_get', 'chunked_create_create',
+         'rejected_vs_create']
 
 _BASE = None
 
